@@ -915,7 +915,11 @@ func (s *Sim) cprog(r *CallRec, st grpc.ClientStream, prog []Op, suffix string) 
 			e.Pt("c.close")
 			err := st.CloseSend()
 			histMu.Lock()
-			r.CloseErr = err
+			if r.CloseErr == nil {
+				// a program may half-close twice; the second call is idempotent and returns
+				// nil, and must not hide that the first one failed
+				r.CloseErr = err
+			}
 			histMu.Unlock()
 			e.Log("c.close", "", id, errStr(err))
 			if (op.N == 1 || r.Spec.Stub) && err != nil {
